@@ -202,6 +202,24 @@ func c03Directed(w *c03World, rng *rand.Rand, start c03Start, startWith c03Start
 		}
 		out = append(out, r)
 	}
+	// (3f) the asset's meta information is updated (gateway updateToken) while stakers hold balances: nothing the ledger tracks
+	// may move - in particular the published staking total - and a later withdrawal of the whole withdrawable balance is accepted
+	{
+		r := start(11, nil)
+		r.deposit(0, 1, c03I(70_000), false)
+		r.deposit(1, 1, c03I(5_000), false)
+		r.delegate(0, 1, 2, c03I(20_000))
+		r.tokenMeta(1, "USD Coin, bridged")
+		r.tokenMeta(-1, "unknown token")
+		r.deposit(1, 1, r.withdrawable(1, 1), true)
+		r.undelegate(0, 1, 2, c03I(20_000), r.nextNonce(), r.newTx())
+		r.tokenMeta(1, "")
+		for i := 0; i < 11; i++ {
+			r.endBlock()
+		}
+		r.deposit(0, 1, r.withdrawable(0, 1), true)
+		out = append(out, r)
+	}
 	// (4..) repaired prefix scan: at height h a genesis-loaded record completes at a height whose hex starts with hex(h)
 	for _, hc := range [][2]uint64{{1, 19}, {1, 16}, {2, 0x2f}, {1, 0x100}, {0xa, 0xa0}, {0x12, 0x123}, {3, 0x3f}, {0xff, 0xff0}} {
 		r := start(int64(hc[0]), nil)
@@ -321,6 +339,16 @@ func c03Random(w *c03World, rng *rand.Rand, start c03Start, suite string) *c03Ru
 				eh = 0
 			}
 			r.slash(op, eh, p, powers[rng.Intn(len(powers))])
+		case x < 71:
+			metas := []string{"", "updated", "Tether USD token", "a longer description of the token that the gateway forwards as-is"}
+			which := as
+			switch rng.Intn(6) {
+			case 0:
+				which = -1 // not registered
+			case 1:
+				which = 2 // the native token's entry
+			}
+			r.tokenMeta(which, metas[rng.Intn(len(metas))])
 		case x < 76:
 			rks := r.recordKeys()
 			if len(rks) > 0 {
